@@ -196,7 +196,11 @@ def _fault_slice(args):
         steps = [(g.edges[i][1], g.edges[i][2], g.states[g.edges[i][3]]) for i in p]
         k = 1
         while True:
-            done, bad, hit = ikereplay.fault_replay(g.sc, steps, k, seed=seed)
+            try:
+                done, bad, hit = ikereplay.fault_replay(g.sc, steps, k, seed=seed)
+            except ikereplay.Mismatch:
+                res['kinds']['diverged-before-fault'] += 1      # the fault-free replay of the same behaviour reports this
+                break
             if hit is None:
                 break                       # fewer than k kernel requests in this behaviour
             res['runs'] += 1
